@@ -35,9 +35,23 @@ CONSTANTS
 
 FlowNames == {"A", "B"}
 Bodies    == {"A", "B", "A*B", "B*A", "A/B", "B/A"}
-D1 == "Z*2"                 \* the two defining expressions
+(* Texts of right-hand sides of a flow variable.  The library's placeholder spellings    *)
+(* '' and '0.0' are "empty / identically zero": AddCashFlow(term, eqn) may replace them.   *)
+(* Everything else is an existing definition and is never overwritten - whatever its      *)
+(* text looks like: D3, D4, D5 BEGIN like a zero literal but are real definitions.         *)
+(* The other spellings of zero, '0' and '0.', are identically zero in value but are not    *)
+(* treated as placeholders by the library; the statement can be read either way, so        *)
+(* nothing is demanded of AddCashFlow about them (ZeroSpelled; weaker reading) - what the  *)
+(* code does with them (it keeps them) is a conformance matter.                            *)
+D1 == "Z*2"
 D2 == "W-1"
-Eqns  == {"", "0.0", D1, D2}
+D3 == "0.5*Z"               \* coefficient below one written first
+D4 == "0.25"                \* non-zero constant below one
+D5 == "0.0+0.25*W"          \* begins with the placeholder spelling itself
+Placeholders == {"", "0.0"}
+ZeroSpelled  == {"0", "0."}
+RealDefs     == {D1, D2, D3, D4, D5}
+Eqns  == Placeholders \cup RealDefs \cup ZeroSpelled
 Signs == {"", "+", "-"}
 Sectors == {"S", "T", "O"}      \* this sector; its twin (same Code, other Country); another Code
 
@@ -84,9 +98,12 @@ DenBody(b, v) ==            \* K-fold value of a flow term
       [] b = "B/A" -> (v.K * v.B) \div v.A
 DenLag(v) == v.K * v.L
 
-DenDef(d, v) ==
-    CASE d = D1 -> v.Z * 2
-      [] d = D2 -> v.W - 1
+DenDef(d, v) ==             \* 4-fold value of a definition text (exact integers)
+    CASE d = D1 -> 8 * v.Z
+      [] d = D2 -> 4 * (v.W - 1)
+      [] d = D3 -> 2 * v.Z
+      [] d = D4 -> 1
+      [] d = D5 -> v.W
       [] OTHER  -> 0
 
 (* a ledger is a bag: term text -> accumulated coefficient *)
@@ -209,12 +226,14 @@ C06_F   == \A i \in 1..2 : DenF(F, Vals[i]) = ExpF(log, i)
 C06_INC == \A i \in 1..2 : DenINC(INC, Vals[i]) = ExpINC(log, i)
 
 (* Registering a flow never changes an existing definition; with a defining expression  *)
-(* (a non-empty, non-zero one: '' and '0.0' define nothing) it defines a flow variable   *)
-(* that was absent, empty or zero.                                                       *)
-DefinesSomething(act) == act.op = "CF" /\ act.he /\ act.eqn \notin {"", "0.0"}
+(* (a real one: '' and '0.0' define nothing, '0' / '0.' are left out) it defines a flow   *)
+(* variable that was absent, empty or zero ('' / '0.0').  An existing '0' / '0.' is        *)
+(* neither protected nor required to be replaced.                                        *)
+DefinesSomething(act) == act.op = "CF" /\ act.he /\ act.eqn \in RealDefs
+Protected(c) == c.k = "defined" /\ c.d \notin ZeroSpelled      \* an existing definition beyond doubt
 DefineOnceRel(before, after, act) ==
     act.op = "CF" =>
-        /\ \A m \in FlowNames : before[m].k = "defined" => after[m] = before[m]
+        /\ \A m \in FlowNames : Protected(before[m]) => after[m] = before[m]
         /\ (DefinesSomething(act) /\ Blank(before[act.body])) =>
                after[act.body] = [k |-> "defined", d |-> act.eqn]
 
